@@ -221,3 +221,111 @@ Proof.
   rewrite (app_partial_tail_waits ac fuel now (set_store s (tokens s) (pend s) false false) a []); auto.
   proj. destruct (tokens s); eexists; (split; [reflexivity|]); proj; auto.
 Qed.
+
+(* ------------------------------------------------------------------------------------------------ *)
+(* No application configured: run() of the application layer IS on_wake of Tcp/Sender.v.
+
+   plain ac: no arrival_dist, no size_dist, no finish_time, start_time 0 (flow.size is ac_cfg's fsize, as in
+   Sender.v: 0 = unbounded, else psize caps the last write at size - next_seq).  Then, from any sender
+   state s (no reachability hypothesis is needed) and any started application state without a pending
+   sleep, a resumption of run() by the store computes exactly what Sender.on_wake computes — same successor
+   state, same emissions, same error, and the application state is untouched — for every fuel above a
+   bound.  The only structural difference between the two definitions is the fetch: send_loop takes
+   `fill` (the whole `while next_seq >= send_buffer` as one function), arun takes one MInner/MAfterArrival
+   round trip per write; arun_fill is that correspondence. *)
+
+Definition plain (ac : acfg) : Prop :=
+  ac_arr ac = None /\ ac_siz ac = None /\ ac_finish ac = None /\ Qeq_bool (ac_start ac) 0 = true.
+
+Definition conv (a : app) (r : result) : aresult :=
+  match r with Ok s o => AOk s a o | Raise x => ARaise x end.
+
+Lemma set_buffer_idem s x y : set_buffer (set_buffer s x) y = set_buffer s y.
+Proof. reflexivity. Qed.
+
+Lemma set_buffer_same s : set_buffer s (send_buffer s) = s.
+Proof. destruct s; reflexivity. Qed.
+
+Lemma arun_fill ac now a acc : ac_arr ac = None -> ac_siz ac = None ->
+  forall k s sb', fill k (next_seq s) (send_buffer s) (psize (ac_cfg ac) (next_seq s)) = Some sb' ->
+  next_seq s < sb' /\
+  exists j, forall f, arun (2 * j + f) ac now MInner s a acc = arun f ac now MInner (set_buffer s sb') a acc.
+Proof.
+  intros Ha Hs. induction k as [|k IH]; intros s sb' Hf; [discriminate|].
+  cbn [fill] in Hf. destruct (send_buffer s <=? next_seq s) eqn:E.
+  - specialize (IH (set_buffer s (send_buffer s + psize (ac_cfg ac) (next_seq s))) sb').
+    cbn [next_seq send_buffer set_buffer] in IH. destruct (IH Hf) as [Hlt [j Hj]]. split; [exact Hlt|].
+    exists (S j). intros f. replace (2 * S j + f)%nat with (S (S (2 * j + f))) by lia.
+    cbn [arun]. rewrite E, Ha, Hs. rewrite Hj. rewrite set_buffer_idem. reflexivity.
+  - injection Hf as <-. apply Z.leb_gt in E. split; [exact E|]. exists O. intros f.
+    rewrite set_buffer_same. reflexivity.
+Qed.
+
+Lemma arun_plain_send_loop ac now a : ac_arr ac = None -> ac_siz ac = None -> ac_finish ac = None ->
+  forall fw s acc, send_loop fw (ac_cfg ac) s acc <> Raise OutOfFuel ->
+  exists fa, forall extra, arun (fa + extra) ac now MOuter s a acc = conv a (send_loop fw (ac_cfg ac) s acc).
+Proof.
+  intros Ha Hs Hfin. induction fw as [|fw IH]; intros s acc Hne; [exfalso; apply Hne; reflexivity|].
+  cbn [send_loop] in *.
+  destruct (negb (fsize (ac_cfg ac) =? 0) && (fsize (ac_cfg ac) <=? next_seq s)) eqn:Efin.
+  - exists 1%nat. intros extra. cbn [Nat.add arun]. rewrite Hfin, Efin. reflexivity.
+  - destruct (fill (S (S (Z.to_nat (next_seq s - send_buffer s)))) (next_seq s) (send_buffer s)
+                (psize (ac_cfg ac) (next_seq s))) as [sb'|] eqn:Efill; [|exfalso; apply Hne; reflexivity].
+    destruct (arun_fill ac now a acc Ha Hs _ s sb' Efill) as [Hlt [j Hj]].
+    assert (Eg : guard (ac_cfg ac) (set_buffer s sb') (send_buffer (set_buffer s sb')) = guard (ac_cfg ac) s sb')
+      by reflexivity.
+    assert (Eb : (send_buffer (set_buffer s sb') <=? next_seq (set_buffer s sb')) = false)
+      by (cbn [send_buffer next_seq set_buffer]; apply Z.leb_gt; exact Hlt).
+    destruct (guard (ac_cfg ac) s sb') eqn:G.
+    + destruct (Qle_bool (rto s) 0) eqn:Er.
+      * exists (S (2 * j + 1))%nat. intros extra.
+        replace (S (2 * j + 1) + extra)%nat with (S (2 * j + S extra)) by lia.
+        cbn [arun]. rewrite Hfin, Efin, Hj. cbn [arun]. rewrite Eb, Eg.
+        cbn [rto set_buffer]. rewrite Er. reflexivity.
+      * destruct (IH _ _ Hne) as [fa Hfa].
+        exists (S (2 * j + S fa))%nat. intros extra.
+        replace (S (2 * j + S fa) + extra)%nat with (S (2 * j + S (fa + extra))) by lia.
+        cbn [arun]. rewrite Hfin, Efin, Hj. cbn [arun]. rewrite Eb, Eg.
+        cbn [rto set_buffer]. rewrite Er. exact (Hfa extra).
+    + exists (S (2 * j + 1))%nat. intros extra.
+      replace (S (2 * j + 1) + extra)%nat with (S (2 * j + S extra)) by lia.
+      cbn [arun]. rewrite Hfin, Efin, Hj. cbn [arun]. rewrite Eb, Eg.
+      destruct (tokens s) eqn:Et; cbn [tokens set_buffer]; rewrite Et; reflexivity.
+Qed.
+
+(* the application state after the start: unchanged but for the started flag *)
+Definition started (a : app) : app := mkapp (ap_last a) None true (ap_ai a) (ap_si a).
+
+Theorem app_plain_is_on_wake fx ac s a now :
+  plain ac -> 0 < mss (ac_cfg ac) -> ap_sleep a = None ->
+  exists fuel0, forall fuel, (fuel0 <= fuel)%nat ->
+    astep fx fuel ac s a (AWake now) = conv (if ap_started a then a else started a) (on_wake (ac_cfg ac) s).
+Proof.
+  intros (Ha & Hs & Hfin & Hst) Hm Hsl.
+  pose proof (wake_never_out_of_fuel (ac_cfg ac) s Hm) as Hne. unfold on_wake in *.
+  cbn [astep]. rewrite Hsl, Hst, andb_true_r.
+  destruct (wake s && negb (finished s)) eqn:E.
+  - destruct (ap_started a).
+    + destruct (arun_plain_send_loop ac now a Ha Hs Hfin _ _ _ Hne) as [fa Hfa].
+      exists fa. intros fuel Hle. replace fuel with (fa + (fuel - fa))%nat by lia. apply Hfa.
+    + destruct (arun_plain_send_loop ac now (started a) Ha Hs Hfin _ _ _ Hne) as [fa Hfa].
+      exists fa. intros fuel Hle. replace fuel with (fa + (fuel - fa))%nat by lia. apply Hfa.
+  - exists O. intros. destruct (ap_started a); reflexivity.
+Qed.
+
+(* the same with everything unfolded (the form stated in Props/C17.v) *)
+Corollary app_plain_is_on_wake_explicit fx ac s a now :
+  ac_arr ac = None -> ac_siz ac = None -> ac_finish ac = None -> Qeq_bool (ac_start ac) 0 = true ->
+  0 < mss (ac_cfg ac) -> ap_sleep a = None ->
+  exists fuel0, forall fuel, (fuel0 <= fuel)%nat ->
+    astep fx fuel ac s a (AWake now) =
+    match on_wake (ac_cfg ac) s with
+    | Ok s' o => AOk s' (mkapp (ap_last a) None true (ap_ai a) (ap_si a)) o
+    | Raise x => ARaise x
+    end.
+Proof.
+  intros Ha Hs Hf Hst Hm Hsl.
+  destruct (app_plain_is_on_wake fx ac s a now (conj Ha (conj Hs (conj Hf Hst))) Hm Hsl) as [f0 H].
+  exists f0. intros fuel Hle. rewrite (H fuel Hle). unfold conv, started.
+  destruct a as [l sl st ai si]; cbn in *. subst sl. destruct st; reflexivity.
+Qed.
